@@ -57,7 +57,12 @@ def sig(toks):
 
 
 def classes(toks):
-    return {bcls(b) for tag, p in toks if tag == "s" for b in p} - {"X"}
+    """Features a failure may depend on: special octet classes present, and LONG (a string the serialiser
+    sends as a literal because of its length)."""
+    cl = {bcls(b) for tag, p in toks if tag == "s" for b in p} - {"X"}
+    if any(tag == "s" and len(p) > 1000 for tag, p in toks):
+        cl.add("LONG")
+    return cl
 
 
 def to_obj(toks):
@@ -293,7 +298,14 @@ def shrink(oracle, seeds, max_rounds=40):
 
 
 def remove_classes(toks, cl):
-    return [[tag, [b for b in p if bcls(b) not in cl]] if tag == "s" else [tag, p] for tag, p in toks]
+    out = []
+    for tag, p in toks:
+        if tag == "s":
+            p = [b for b in p if bcls(b) not in cl]
+            if "LONG" in cl and len(p) > 1000:
+                p = p[:999] + p[-1:]
+        out.append([tag, p])
+    return out
 
 
 def fingerprint(mintoks, blame):
